@@ -272,6 +272,29 @@ Section Local.
       injection H as <- <-. eauto.
   Qed.
 
+  (* bytes / bytearray: a node with one LBytes leaf (the member is named by the uuid counter; reading it succeeded by hypothesis) *)
+  Lemma bytes_PV id ba mo c tok : Objs (PBytes id ba mo c tok) -> PV (PBytes id ba mo c tok).
+  Proof.
+    intros Hv st j st1 H Hb. cbn [get_state] in H. destruct (fresh_uuid st) as [u st0] eqn:Hfr.
+    change (if ba then CodecDump.K "BytearrayNode" else CodecDump.K "BytesNode") with (bytes_loader ba) in H. injection H as <- <-.
+    assert (Hn0 : d_next (write_member (uuid_name u) (MBin, tok) st0) = d_next st).
+    { unfold fresh_uuid in Hfr. injection Hfr as <- <-. reflexivity. }
+    rewrite Hn0. split; [lia|].
+    apply (leaf_PV (PBytes id ba mo c tok) _ _ _ _ (bytes_tag ba) (bytes_kind ba) (fun h => h)
+             [Leaf (SOne (GetTree.K "content")) LBytes] (d_next st) (d_next st));
+      try assumption; try reflexivity; try lia.
+    - destruct ba; cbn; tauto.
+    - destruct ba; reflexivity.
+    - destruct ba; reflexivity.
+    - intros x [<-|[]]; eauto.
+    - intros rec sl m n m' H. destruct ba; unfold build, bytes_kind, bytes_tag in H;
+        (destruct (node_init _ _ _ _ _ _ _ _) as [[h m0]|]; [|discriminate H]); cbn [bind] in H;
+        match type of H with context [jindex ?j0 (GetTree.K "file")] =>
+          change (jindex j0 (GetTree.K "file")) with (Ok (A:=json) (JStr (uuid_name u))) in H end;
+        cbn [bind] in H; (destruct (read_member E (JStr (uuid_name u))) as [[]|]; [|discriminate H]); cbn [bind] in H;
+        injection H as <- <-; eauto.
+  Qed.
+
   (* ---- lists of positions built one after the other ---- *)
   Lemma gen_local l : Forall PV l ->
     forall st js st', states_of (fun x s0 => get_state D x s0) l st = Ok (js, st') -> (base <= d_next st)%Z ->
@@ -711,12 +734,129 @@ Section Local.
     constructor; [apply good_leaf|constructor].
   Qed.
 
+  (* the node of get_state(obj.shape) for a rank-1 array: a tuple the dumper creates around len(obj) *)
+  Lemma shape_local n st1 shj st2 :
+    shape_state [n] st1 = (shj, st2) -> (is_small_int n = true -> Objs (PScalar (small_int_base + n) (SInt n))) ->
+    (base <= d_next st1)%Z -> (0 < base)%Z ->
+    (d_next st1 < d_next st2)%Z /\
+    forall fuel m1 sl shn m2, get_tree fuel E proto [] sl m1 shj = Ok (shn, m2) -> memo_lt m1 (d_next st1) -> Out 2 (d_next st2) shn m2.
+  Proof.
+    intros Hsh Hio Hb Hb0. destruct (is_small_int n) eqn:Hsm.
+    - rewrite (shape_state_small n st1 Hsm) in Hsh. specialize (Hio eq_refl).
+      set (i := (small_int_base + n)%Z) in *. set (st2' := snd (fresh st1)) in *.
+      assert (Hn2 : d_next st2' = (d_next st1 + 1)%Z) by reflexivity.
+      match type of Hsh with (?a, _) = _ => set (shj' := a) in Hsh end.
+      injection Hsh as <- <-. split; [lia|]. unfold shj'. clear shj'.
+      intros fuel m1 sl shn m2 Ekt Hlt.
+      assert (Hmem2 : memo_mem (key (d_next st1)) m1 = false) by (apply (memo_lt_fresh _ (d_next st1)); [exact Hlt|lia]).
+      destruct fuel as [|fuel]; [discriminate Ekt|]. unfold proto in Ekt.
+      rewrite (gt_step E Hreg fuel sl m1 _ _ _ _ (d_next st1) (s "_general.TupleNode") KTuple) in Ekt;
+        [|reflexivity|cbn; tauto|reflexivity]. rewrite Hmem2 in Ekt.
+      assert (HQi : Forall PV [PScalar i (SInt n)]) by (constructor; [apply scalar_PV; exact Hio|constructor]).
+      assert (Hx1 : own (d_next st1) 2) by (right; lia).
+      assert (Hx3 : (base <= d_next st2')%Z) by lia.
+      assert (Hst : states_of (fun x s0 => get_state D x s0) [PScalar i (SInt n)] st2' = Ok ([json_state (show_Z n) i], st2')) by reflexivity.
+      apply (seq_local QTuple (d_next st1) (s "tuple") (s "builtins") [PScalar i (SInt n)] st2' [json_state (show_Z n) i] st2' 2 Hx1 ltac:(lia) HQi Hst Hx3
+               ltac:(intros x [<-|[]]; cbn; lia) ltac:(lia) fuel m1 sl (d_next st2') shn m2 Ekt); [|lia|lia].
+      eapply memo_lt_le; [|exact Hlt]. lia.
+    - clear Hio. unfold shape_state, fresh in Hsh. cbn [shape_items] in Hsh. unfold int_obj, fresh in Hsh. rewrite Hsm in Hsh. cbn [d_next] in Hsh.
+      set (tid := d_next st1) in *. set (i := (tid + 1)%Z) in *.
+      injection Hsh as <- <-. cbn [d_next]. split; [lia|].
+      intros fuel m1 sl shn m2 Ekt Hlt. destruct fuel as [|fuel]; [discriminate Ekt|]. unfold proto in Ekt.
+      set (t0 := show_Z n) in *.
+      rewrite (gt_step E Hreg fuel sl m1 _ _ _ _ tid (s "_general.TupleNode") KTuple) in Ekt; [|reflexivity|cbn; tauto|reflexivity].
+      assert (Hmem2 : memo_mem (key tid) m1 = false) by (apply (memo_lt_fresh _ tid); [exact Hlt|lia]).
+      rewrite Hmem2 in Ekt.
+      set (jt := node_state (CodecDump.K "tuple") (CodecDump.K "builtins") (CodecDump.K "TupleNode")
+                   [(CodecDump.K "content", JArr [json_state t0 i])] tid) in *.
+      assert (Hbd : forall rec, build E rec sl [] (s "_general.TupleNode") KTuple m1 jt
+              = do (h, m0) <- node_init sl KTuple (s "_general.TupleNode") [] true m1 jt JNull;
+                do (c, m') <- rec [] (SElem (GetTree.K "content")) m0 (json_state t0 i);
+                Ok (Node h [c], m')).
+      { intros rec. unfold build. destruct (node_init _ _ _ _ _ _ _ _) as [[h m0]|]; [|reflexivity]. cbn [bind].
+        change (jindex jt (GetTree.K "content")) with (Ok (A:=json) (JArr [json_state t0 i])). cbn [bind jiter sub_list].
+        destruct (rec [] (SElem (GetTree.K "content")) m0 (json_state t0 i)) as [[c m']|]; reflexivity. }
+      rewrite Hbd in Ekt. unfold jt in Ekt at 1. rewrite init_eq in Ekt by (try reflexivity; unfold tid; lia). cbn [bind] in Ekt. clear Hbd.
+      destruct fuel as [|fuel]; [discriminate Ekt|].
+      unfold json_state in Ekt at 1.
+      rewrite (gt_step E Hreg fuel (SElem (GetTree.K "content")) (key tid :: m1) _ _ _ _ i (s "_general.JsonNode") KJson) in Ekt;
+        [|reflexivity|cbn; tauto|reflexivity].
+      assert (Hm0 : memo_lt (key tid :: m1) (tid + 1)) by (apply memo_lt_cons; [lia|]; eapply memo_lt_le; [|exact Hlt]; unfold tid; lia).
+      rewrite (memo_lt_fresh _ (tid + 1) i Hm0 ltac:(unfold i; lia)) in Ekt.
+      set (ji := node_state (CodecDump.K "str") (CodecDump.K "builtins") (CodecDump.K "JsonNode")
+                   [(CodecDump.K "content", JStr t0); (CodecDump.K "is_json", JBool true)] i) in *.
+      assert (Hbi : forall rec, build E rec (SElem (GetTree.K "content")) [] (s "_general.JsonNode") KJson (key tid :: m1) ji
+              = do (h, m0) <- node_init (SElem (GetTree.K "content")) KJson (s "_general.JsonNode") [] true (key tid :: m1) ji JNull;
+                Ok (Node (set_aux h (JStr t0)) [], m0)).
+      { intros rec. unfold build. destruct (node_init _ _ _ _ _ _ _ _) as [[h m0]|]; reflexivity. }
+      rewrite Hbi in Ekt. unfold ji in Ekt at 1. rewrite init_eq in Ekt by (try reflexivity; unfold i, tid; lia). cbn [bind] in Ekt. clear Hbi.
+      injection Ekt as <- <-.
+      split; [apply memo_lt_cons; [lia|]; apply memo_lt_cons; [unfold i; lia|]; eapply memo_lt_le; [|exact Hlt]; unfold i, tid; lia|].
+      split; [|reflexivity].
+      eapply (good_alloc base Objs 2 _ _ tid); [exact Hb|reflexivity|reflexivity|lia|].
+      constructor; [|constructor].
+      eapply (good_alloc base Objs _ _ _ i); [unfold i; lia|reflexivity|reflexivity|lia|constructor].
+  Qed.
+
+  (* ---- rank-1 object arrays: the cells, then the shape tuple ---- *)
+  Lemma objarr_PV id cells :
+    let n := Z.of_nat (length cells) in
+    Objs (PObjArr id (s "numpy") (s "ndarray") [n] cells) ->
+    (is_small_int n = true -> Objs (PScalar (small_int_base + n) (SInt n))) -> Forall PV cells -> PV (PObjArr id (s "numpy") (s "ndarray") [n] cells).
+  Proof.
+    intros n Hv Hio HQ st j st3 H Hb. cbn [get_state map] in H.
+    replace (Z.to_nat n) with (length cells) in H by (unfold n; rewrite Nat2Z.id; reflexivity).
+    rewrite (tolist_rank1 (fun x s0 => get_state D x s0)) in H.
+    destruct (fresh st) as [lid sta] eqn:Hfr.
+    destruct (states_of _ cells sta) as [[js st1]|] eqn:E0; [|discriminate H]. cbn [bind] in H.
+    change (jindex (list_state js lid) (CodecDump.K "content")) with (Ok (A:=json) (JArr js)) in H. cbn [bind] in H.
+    destruct (shape_state [n] st1) as [shj st2] eqn:Esh.
+    pose proof (Oid _ Hv) as Hid. cbn [pid] in Hid.
+    set (v := PObjArr id (s "numpy") (s "ndarray") [n] cells) in *.
+    match type of H with Ok (?a, _) = _ => set (jv := a) in H end.
+    injection H as <- <-.
+    assert (Hd : lid = d_next st /\ d_next sta = (d_next st + 1)%Z).
+    { unfold fresh in Hfr. injection Hfr as <- <-. cbn. split; reflexivity. }
+    destruct Hd as [-> Hna].
+    destruct (gen_local cells HQ _ _ _ E0 ltac:(lia)) as [Hnext1 [Hlen HG0]].
+    destruct (shape_local n st1 shj st2 Esh Hio ltac:(lia) ltac:(lia)) as [Hn2 Hshape].
+    split; [lia|].
+    unfold jv. change id with (pid v).
+    apply (wrap v _ _ _ _ (s "_numpy.NdArrayNode") KNdArray (d_next st) (d_next st2)); try assumption; try reflexivity; try (cbn; tauto); [lia|].
+    intros fuel m sl nn m' H Hm. cbn [pid v] in H. fold jv in H.
+    assert (Hbd : forall rec, build E rec sl [] (s "_numpy.NdArrayNode") KNdArray m jv
+            = do (h, m0) <- node_init sl KNdArray (s "_numpy.NdArrayNode") [] true m jv JNull;
+              do (ns, m1) <- sub_list rec [] (GetTree.K "content") m0 js;
+              do (shn, m2) <- rec [] (SOne (GetTree.K "shape")) m1 shj;
+              Ok (Node (set_aux h (JStr (GetTree.K "json"))) (or_empty (GetTree.K "content") LEmptyList ns ++ [shn]), m2)).
+    { intros rec. unfold build. destruct (node_init _ _ _ _ _ _ _ _) as [[h m0]|]; reflexivity. }
+    rewrite Hbd in H. unfold jv in H at 1. rewrite init_eq in H by (try reflexivity; lia). cbn [bind] in H. clear Hbd.
+    rewrite sub_list_gen, <- combine_const in H.
+    destruct (sub_gen _ _ (key id :: m)) as [[ns m1]|] eqn:Es; [|discriminate H]. cbn [bind] in H.
+    destruct (HG0 _ _ _ _ _ Es) as [Hlt [Hnl Hg]].
+    { rewrite map_length. exact Hlen. }
+    { apply memo_lt_cons; [lia|]. eapply memo_lt_le; [|exact Hm]. lia. }
+    destruct (get_tree fuel E proto [] (SOne (GetTree.K "shape")) m1 shj) as [[shn m2]|] eqn:Ekt; [|discriminate H]. cbn [bind] in H.
+    injection H as <- <-.
+    destruct (Hshape _ _ _ _ _ Ekt Hlt) as [Hklt [Hkg Hknl]].
+    split; [exact Hklt|]. split; [|reflexivity].
+    apply (good_own id); [exact (own_obj v Hv)|reflexivity| |apply need_pos|].
+    - unfold nice. cbn [set_aux mkh h_class h_module h_kind is_jstr andb]. rewrite forallb_app. cbn [forallb]. rewrite andb_true_r.
+      replace (leaf_plain shn) with true by (destruct shn; [reflexivity|reflexivity|discriminate Hknl]). rewrite andb_true_r.
+      destruct ns as [|n1 ns']; [reflexivity|]. cbn [or_empty]. apply vl_plain_of_notleaf. exact Hnl.
+    - apply Forall_app. split.
+      + destruct ns as [|n1 ns']; cbn [or_empty]; [constructor; [apply good_leaf|constructor]|]. apply Hg.
+        intros x Hx. pose proof (max_map_in (fun x => need x) x cells Hx). unfold v. cbn [need]. cbn beta in *. lia.
+      + constructor; [|constructor]. eapply good_mono; [exact Hkg|]. unfold v. cbn [need]. lia.
+  Qed.
+
   (* ---- assembling ---- *)
   Theorem vok_good : forall v, vok D F Objs v -> PV v.
   Proof.
     apply (pval_ind' (fun v => vok D F Objs v -> PV v)).
     - intros v Hl Hv. destruct v; try discriminate Hl; cbn [vok] in Hv; destruct Hv as [Ho Hv]; try contradiction.
       + apply scalar_PV; assumption.
+      + apply bytes_PV; assumption.
       + apply slice_PV; assumption.
       + apply arr_PV; assumption.
       + apply dtype_PV; assumption.
@@ -729,7 +869,8 @@ Section Local.
       apply Forall_map_snd. eapply Forall_imp2; [exact IH|apply vok_vals; exact Hvals].
     - intros id mo c f l IHf IH [Ho [-> [-> [Hi [Hf Hvals]]]]]. apply defdict_PV; try assumption; [apply IHf; exact Hf|].
       apply Forall_map_snd. eapply Forall_imp2; [exact IH|apply vok_vals; exact Hvals].
-    - intros; cbn [vok] in *; tauto.
+    - intros id mo c sh l IH [Ho [-> [-> [-> [Hrt [Hio Hall]]]]]]. apply objarr_PV; try assumption.
+      eapply Forall_imp2; [exact IH|apply vok_all; exact Hall].
     - intros id mo c d k IHd IHk [Ho [-> [-> [Hd Hk0]]]]. apply masked_PV; auto.
     - intros id mo c x IHx [Ho [Hr Hx]]. apply randstate_PV; auto.
     - intros id mo c x y IHx IHy [Ho [Hr [Hx Hy]]]. apply randgen_PV; auto.
